@@ -5,4 +5,4 @@ Require Import Inst.
 Require Extraction.
 Require Import ExtrOcamlBasic.
 Extraction Language OCaml.
-Extraction "model.ml" step_u step_n init_state snap_of parse_string_result.
+Extraction "model.ml" step_u step_n init_state snap_of parse_string_result observer_u observer_n dontcare_equiv decode hex_ok cfg_of.
